@@ -666,7 +666,22 @@ class CallMixin(object):
         return V(mkR(nr), TypeSpec('list', (), False, v.hint.elem))
 
     def call_sorted(self, st, args, kwargs, line):
-        raise EngineError('sorted() needs contract-level treatment')
+        """sorted(L, key=f) for a symbolic list: a new list, a copy of L that is then sorted like list.sort (a
+        permutation whose last element has a maximal key; see list_sort)"""
+        src = args[0]
+        if isinstance(src, (GList, PyTuple)):
+            src = self.as_v(st, src)
+        if not (isinstance(src, V) and src.hint is not None and src.hint.kind in ('list', 'tuple')) or 'reverse' in kwargs:
+            raise EngineError('sorted() of %r' % (src,))
+        r = Val.r(src.t)
+        nr = self.new_ref(st, list)
+        n = self.list_len(st, r)
+        st.heap['$LEN'] = z3.Store(self.harr(st, '$LEN'), nr, n)
+        st.heap['$OFF'] = z3.Store(self.harr(st, '$OFF'), nr, self.list_off(st, r))
+        st.heap['$ELEM'] = z3.Store(self.harr(st, '$ELEM'), nr, z3.Select(self.harr(st, '$ELEM'), r))
+        copy = V(mkR(nr), TypeSpec('list', (), False, src.hint.elem))
+        self.list_sort(st, copy, {'key': kwargs['key']} if 'key' in kwargs else {}, line)
+        return copy
 
     # ------------------------------------------------------------------ methods of builtin types
     def call_method_builtin(self, st, selfv, name, args, kwargs, line):
@@ -886,6 +901,18 @@ class CallMixin(object):
                 self.assume(st, ujoin(e0, new_inner, off0, n + 1) == z3.Concat(ujoin(e0, z3.Select(el, r), off0, n), Val.s(hv.t)))
             st.heap['$ELEM'] = z3.Store(el, r, new_inner)
             st.heap['$LEN'] = z3.Store(self.harr(st, '$LEN'), r, n + 1)
+            return self.lift(None)
+        if name == 'remove' and len(args) == 1:
+            # removes the first element equal to the argument: modelled coarsely - the list becomes one element shorter
+            # with unspecified contents (ValueError when no element is equal is a possible outcome)
+            n = self.list_len(st, r)
+            self.assume(st, n >= 0)
+            may = fresh('remove_not_found', BoolS)
+            self.raise_exit(st, ValueError, Or(n == 0, may), line)
+            st.heap['$ELEM'] = z3.Store(self.harr(st, '$ELEM'), r, fresh('after_remove', z3.ArraySort(IntS, Val)))
+            st.heap['$OFF'] = z3.Store(self.harr(st, '$OFF'), r, z3.IntVal(0))
+            st.heap['$LEN'] = z3.Store(self.harr(st, '$LEN'), r, n - 1)
+            self.trust('list.remove: one element shorter, remaining contents unspecified')
             return self.lift(None)
         if name == 'sort':
             return self.list_sort(st, l, kwargs if isinstance(kwargs, dict) else {}, line)
